@@ -15,7 +15,7 @@ import (
 	"verif/run"
 )
 
-func TestMain(m *testing.M) { gen.Avoided = run.Avoided; run.Main(m, "C13") }
+func TestMain(m *testing.M) { gen.Avoided = run.Avoided; gen.LoneSurrogates = true; run.Main(m, "C13") }
 
 const (
 	chkSchema = "schema-respelling"
@@ -127,7 +127,7 @@ func respell(t *rapid.T) (*gen.Style, []string, bool) {
 	st := gen.DefaultStyle()
 	var names []string
 	permute := false
-	all := []string{"newline", "indent", "comments", "multiline", "spread", "quote-names", "trailing-comma", "blank-lines", "rule-order", "space-before-colon", "empty-annotations", "mixed-annotations", "enum-item-notes", "note-on-next-line"}
+	all := []string{"newline", "indent", "comments", "multiline", "spread", "quote-names", "trailing-comma", "blank-lines", "rule-order", "space-before-colon", "empty-annotations", "mixed-annotations", "enum-item-notes", "note-on-next-line", "join-lines"}
 	n := rapid.IntRange(1, 5).Draw(t, "nrewrites")
 	for _, r := range rapid.Permutation(all).Draw(t, "rewrites")[:n] {
 		names = append(names, r)
@@ -157,6 +157,8 @@ func respell(t *rapid.T) (*gen.Style, []string, bool) {
 			if !st.MultiLine && st.MixedAnn == 0 {
 				st.MixedAnn = rapid.IntRange(1, 2).Draw(t, "mixedAnnForNotes")
 			}
+		case "join-lines":
+			st.JoinLines = true // several properties per line, one-line containers (no effect together with comments)
 		case "note-on-next-line":
 			st.NoteNextLine = true
 		case "empty-annotations":
